@@ -157,7 +157,7 @@ type end struct {
 	w *pipe
 }
 
-func (e *end) Read(ctx context.Context) (*goat.Rpc, error) { return e.r.Read(ctx) }
+func (e *end) Read(ctx context.Context) (*goat.Rpc, error)  { return e.r.Read(ctx) }
 func (e *end) Write(ctx context.Context, r *goat.Rpc) error { return e.w.Write(ctx, r) }
 
 // link is a bidirectional scheduler-owned connection between a client-side
